@@ -184,6 +184,9 @@ type Exec struct {
 	notExploring bool
 	Diverged     string
 	HarnessErr   string
+	// MainDone: the body given to Run (thread 0) ran to its end. False when the horizon, a deadlock or a panic
+	// ended the execution first: whatever the body wanted to judge after that point was never judged.
+	MainDone bool
 	sig          [2]uint64
 	devs         int
 	mutexes      []*Mutex
@@ -347,6 +350,9 @@ func threadMain(e *Exec, t *Thread, f func()) {
 				}
 			}()
 			f()
+			if t.ID == 0 {
+				e.MainDone = true // the body given to Run returned (was not cut off by the horizon, a deadlock or a panic)
+			}
 		}()
 	}
 	t.done = true
@@ -1700,6 +1706,12 @@ func Run(opt Options, body func(e *Exec)) *Exec {
 	}
 	if e.Failure == "" && !e.Pruned && e.HarnessErr == "" {
 		e.Deadlock = e.findDeadlock()
+	}
+	if !e.MainDone && !e.Pruned && !e.stop && e.Failure == "" && e.HarnessErr == "" && e.Deadlock == "" && len(e.Panics) == 0 {
+		// Thread 0 (the harness body) is still waiting for something when the execution ends: the horizon
+		// came first, or nothing can wake it. What it wanted to judge after that point was never judged; a
+		// harness must not pass silently because of that.
+		e.HarnessErr = fmt.Sprintf("the body given to Run did not run to its end (clock %v, horizon %v; thread 0: %s)", e.now, e.opt.Horizon, e.threads[0].Pending())
 	}
 	e.tearing = true
 	raceDisable()
